@@ -31,8 +31,8 @@ TOKENS = ['/', '//', '.', '..', '%2e', '%2e%2e', '%2f', '%00', '?', '#', 'a.txt'
           'secret.txt', 'public-evil', 'x.txt', 'public', 'public.txt', 'nonexistent']
 OCTET_TOKENS = ['/', '.', '..', 'secret.txt', 'a.txt', 'sub', '\xff', '\xc0\xaf', '.\xff.', '.\xc0.', '\xe9']
 RULE = ('paths = "/" + concatenation of tokens from %r; every path of <= 4 tokens (quick) / <= 5 tokens (thorough) is '
-        'enumerated, longer ones (<= 12 tokens) are drawn by Hypothesis; --min-compression-length in {0, 20, 10^6}. '
-        'Non-trivial: the path contains ".." and its target exists outside the root, or the answer is 200; distinct by path.' % (TOKENS,))
+        'enumerated, as is every path of <= 4 tokens over a second alphabet with octets that are not UTF-8 (%r); longer ones (<= 12 tokens) are drawn by Hypothesis; --min-compression-length in {0, 20, 10^6}. '
+        'Non-trivial: the path contains ".." and its target exists outside the root, or the answer is 200; distinct by path.' % (TOKENS, OCTET_TOKENS))
 EXPLANATION = 'exhaustive_subspaces lists the token-length classes enumerated completely; longer paths are sampled'
 ASSUMPTIONS = ['os.path.realpath as ground truth for where a literal path leads', 'h11 decodes the responses']
 
